@@ -191,7 +191,7 @@ def life3(r, facts):
     discr_locs = [l for l, k, pl in f.defs.get(ve['si']['discr']['l'], []) if k == 'assign'] if 'l' in ve['si']['discr'] else []
     ok_region = False
     for reg in regs:
-        if all(d in reg['live'] for d in dropped) and (test_loc in reg['live'] or any(d in reg['live'] for d in discr_locs)):
+        if all(d in reg['held'] for d in dropped) and (test_loc in reg['held'] or any(d in reg['held'] for d in discr_locs)):
             ok_region = True
     r.inst('status test and Dropped store under one lock region: %s (%d lock regions)' % (ok_region, len(regs)), f.where(test_loc))
     r.require(ok_region, 'State::drop/check-then-act', 'the state lock is released between testing the status for Running and storing Status::Dropped: a final completion processed in between sets Done, which is then overwritten by Dropped and the state is never freed', f.where(test_loc))
@@ -360,7 +360,7 @@ def life6(r, facts):
     regs = fam.guard_regions(f, 'shared')
     if not r.require(len(regs) == 1, 'poll_inner', 'expected one lock(&data.shared) in poll_inner, found %d' % len(regs), f.where()):
         return
-    live = regs[0]['live']
+    live = regs[0]['held']
     adds = f.calls_to(ADD)
     if not r.require(len(adds) == 1, 'poll_inner', 'expected one Submissions::add call', f.where()):
         return
